@@ -467,6 +467,10 @@ def gen_url(rng, hosts=HOSTS):
     if not f and segs and rng.random() < 0.3:
         path = path.rstrip('/')
     q = rng.choice(['', '', '', '?q=1', '?a=b&c=png'])
+    if rng.random() < 0.03:
+        # spider-trap sized URL; what the regex pool looks for (blog, /img/, digits, .html, png, '?') comes after the padding
+        pad = 'p' * rng.choice([2040, 2048, 2100, 4096, 5000])
+        return '%s://%s%s/%s%s%s' % (scheme, host, port, pad, path, q or '?q=1')
     return '%s://%s%s%s%s' % (scheme, host, port, path, q)
 
 
@@ -856,6 +860,17 @@ def boundary_cases(rng):
                     out.append({'argv': ['http://a.example/', '-r', '-p'] + allow, 'hostnames': ['a.example'],
                                 'url': 'http://%s/img/y.png' % h,
                                 'record': dict(base, inline_level=inline, parent_url=parent), 'is_redirect': False})
+    # long URLs: the part of the URL that decides a regex rule lies behind 2048 / 4096 / 65536 characters
+    for n in (2030, 2047, 2048, 2049, 2060, 4095, 4096, 4097, 65535, 65536, 65600):
+        head = 'http://a.example/blog/'
+        pad = 'a' * max(0, n - len(head))
+        for argv_x, url in ((['--reject-regex', 'secret'], head + pad + '/secret.html'),
+                            (['--reject-regex', r'\.exe$'], head + pad + 'setup.exe'),
+                            (['--accept-regex', r'x\.html$'], (head + pad)[:n - 6] + 'x.html' + 'yy.png'),
+                            (['--accept-regex', 'wanted'], head + pad + '/wanted.html'),
+                            (['--accept-regex', r'^http://a\.example/blog/a*/page$'], head + pad + '/page')):
+            out.append({'argv': ['http://a.example/', '-r'] + argv_x, 'hostnames': ['a.example'], 'url': url,
+                        'record': dict(base), 'is_redirect': False})
     # LISTs as users write them: a blank after the comma, a trailing comma; the URL is hit only by a later entry
     for opt, val, url in (('--exclude-domains', 'c.test, b.example', 'http://b.example/blog/x.html'),
                           ('--exclude-hostnames', 'c.test, b.example', 'http://b.example/blog/x.html'),
@@ -1549,6 +1564,10 @@ def gen_crawl_site(rng):
         site['a.test'][start] = {'kind': 'html', 'links': []}
     site['a.test'][start]['links'] += [('/d/r1', False), (rng.choice(pool), False), ('http://b.test/y.html', False),
                                        (rng.choice(fpool), 'frame')]
+    # a spider-trap sized URL whose telling part comes after 2048 / 4096 characters
+    longp = '/d/' + 'L' * rng.choice([2040, 2100, 4100]) + '/secret-tail.html'
+    site['a.test'][longp] = {'kind': 'leaf'}
+    site['a.test'][start]['links'].append((longp, False))
     # URLs that keep failing with a retryable error: more often than any --tries in use allows
     site['a.test']['/d/flaky.html'] = {'kind': 'flaky', 'fails': rng.choice([1, 2, 3, 4, 5, 6])}
     site['a.test']['/d/flaky2.txt'] = {'kind': 'flaky', 'fails': rng.choice([3, 4, 6])}
@@ -1591,7 +1610,7 @@ def gen_crawl_extra(rng):
     if on():
         a += ['--accept-regex', rng.choice([r'test(:\d+)?/($|d|p)', r'\.html$|/$|png', r'^http:', r'a\.test'])]
     if on():
-        a += ['--reject-regex', rng.choice([r'p[12]', r'/sub/', r'b\.test/y', r'^https', r'cgi', r'/on$'])]
+        a += ['--reject-regex', rng.choice([r'p[12]', r'/sub/', r'b\.test/y', r'^https', r'cgi', r'/on$', r'secret-tail', r'tail\.html$'])]
     if on():
         a += ['-A', rng.choice(['html', 'html,png', 'png,bmp', 'p?.html'])]
     if on():
@@ -1874,6 +1893,8 @@ def run_crawl_cases(ctx, cases):
             ctx.tag('crawl:sitemap-queued')
         if any(f['url'].endswith('/sitemap.xml') for f in r['fetches']):
             ctx.tag('crawl:sitemap-requested')
+        if any(len(f['url']) > 2048 for f in r['fetches']):
+            ctx.tag('crawl:long-url-requested')
         if any(ch['inline'] and ch['parent_inline'] for ch in r['children']):
             ctx.tag('crawl:nested-requisite')
         if any((not ch['inline']) and ch['parent_inline'] for ch in r['children']):
@@ -2188,7 +2209,8 @@ def run(ctx):
                           (['--exclude-hostnames', 'www.a.test'], 'http://www.a.test/d/w1.html'), (['-X', '/e'], '/e/p4.html'),
                           (['--no-parent'], '/p5.html'), (['--reject-regex', 'p5'], '/p5.html'), (['-R', 'bmp'], '/d/c.bmp'),
                           (['--reject-regex', '^https'], 'https://a.test:8443/d/s1.html'), (['-I', '/d'], '/e/p4.html'),
-                          (['-D', 'a.test'], 'http://b.test/x')):
+                          (['-D', 'a.test'], 'http://b.test/x'), (['--reject-regex', 'secret-tail'], '/p5.html'),
+                          (['--accept-regex', r'test/d/($|p|s|r|[a-z0-9.]*$)'], '/p5.html')):
         cc_ = gen_crawl_case(crng)
         cc_['extra'] = ['--no-check-certificate', '--no-robots', '-r'] + extra
         cc_['start'] = 'http://a.test/d/'
@@ -2196,6 +2218,7 @@ def run(ctx):
             cc_['site']['a.test']['/d/'] = {'kind': 'html', 'links': []}
         cc_['site']['a.test']['/d/rx.html'] = {'kind': 'redirect', 'location': target, 'code': crng.choice([301, 302, 303, 307, 308])}
         cc_['site']['a.test']['/d/']['links'].append(('/d/rx.html', False))
+        cc_['site']['a.test']['/d/']['links'] += [(t, False) for t in cc_['site']['a.test'] if 'secret-tail' in t]
         ccases.append(cc_)
     run_crawl_cases(ctx, ccases)
     run_resume_cases(ctx, ctx.scale(3, 40))
